@@ -9,7 +9,9 @@ PROPERTY = "C07"
 LEVEL = "exploration"
 RULE = ("A generated prior history (fit, partial_fit, add/remove arm, warm_start, queries; any policy pair) is "
         "followed by fit(D), with D smaller / larger / with a different number of feature columns than before (one "
-        "case in four: D delivered in the ndarray objects of an earlier fit, overwritten in place). A "
+        "case in four: D delivered in the ndarray objects of an earlier fit, overwritten in place; one case in twelve: "
+        "the prior history contains a training call that failed part-way - l2_lambda=0, a batch singular for a later "
+        "arm). A "
         "fresh bandit is constructed from the public properties (arms, learning_policy, neighborhood_policy, seed, "
         "n_jobs, backend), given the re-fitted bandit's random-stream positions from just before fit(D), and fit on "
         "D; both then run a generated continuation (queries, cold_arms, partial_fit, arm changes, warm_start) and "
